@@ -11,6 +11,7 @@ package cache
 // See check.json.
 
 import (
+	"errors"
 	"reflect"
 	"bytes"
 	"compress/flate"
@@ -1171,6 +1172,125 @@ func c19RunRepeated(dir string, lazy int, res *vr.Result, viol func(sig, desc st
 	return ""
 }
 
+
+// ---------------------------------------------------------------------------
+// scenario interrupted: a dump that fails part-way (client gone / disk full
+// after k bytes), then the cache changes (flush + new entries), then a dump
+// that succeeds. What the second dump loads to must be the cache as it was at
+// the second dump: nothing of the interrupted one may surface in it.
+
+type c19FailWriter struct {
+	h     http.Header
+	left  int
+	wrote int
+}
+
+func (w *c19FailWriter) Header() http.Header { return w.h }
+func (w *c19FailWriter) WriteHeader(int)     {}
+func (w *c19FailWriter) Write(p []byte) (int, error) {
+	if len(p) > w.left {
+		n := w.left
+		w.left = 0
+		w.wrote += n
+		return n, errors.New("c19: write failed (client gone)")
+	}
+	w.left -= len(p)
+	w.wrote += len(p)
+	return len(p), nil
+}
+
+func c19RunInterrupted(lazy int, thorough bool, onlyK int, res *vr.Result, viol func(sig, desc string, in any)) (infra string) {
+	cf := c19Conf{N: 140, Lazy: lazy} // two blocks
+	full := 0
+	var ks []int
+	run := func(k int) (d []byte, snap map[string]c19Snap, failedAt int, x *vs.Exec) {
+		x = vs.Run1(c19Cfg, func() {
+			id, _ := vs.CurThread()
+			a, u, _ := c19Populate(cf, id, &Args{Size: c19CurSize, LazyCacheTTL: lazy})
+			defer a.Close()
+			if k >= 0 {
+				fw := &c19FailWriter{h: http.Header{}, left: k}
+				a.Api().ServeHTTP(fw, httptest.NewRequest(http.MethodGet, "/dump", nil))
+				failedAt = fw.wrote
+				rec := httptest.NewRecorder()
+				a.Api().ServeHTTP(rec, httptest.NewRequest(http.MethodGet, "/flush", nil))
+				u.answer = func(q *dns.Msg) *dns.Msg {
+					var i int
+					fmt.Sscanf(q.Question[0].Name, "e%03d.", &i)
+					return c19Build(cf.tpl(i), q, i)
+				}
+				for j := 0; j < 3; j++ {
+					c19Exec(a, u, c19Name(200+j), uint16(200+j))
+				}
+				u.answer = nil
+			}
+			code, b := c19Get(a)
+			if code != 200 {
+				viol("interrupted/dump-failed", fmt.Sprintf("the dump after an interrupted one (failed after %d bytes): GET /dump returned %d", k, code), nil)
+				return
+			}
+			d, snap = b, c19Snapshot(a)
+			res.Transitions++
+		})
+		return
+	}
+	d0, _, _, x := run(-1)
+	if x.Panic != "" || !x.Quiescent || d0 == nil {
+		return fmt.Sprintf("interrupted: reference dump failed: panic=%q blocked=%v", x.Panic, x.Blocked)
+	}
+	full = len(d0)
+	for _, k := range []int{0, 1, 9, 10, 11, 100, 1000, full / 4, full / 2, full - 100, full - 1} {
+		if k >= 0 && k < full {
+			ks = append(ks, k)
+		}
+	}
+	if thorough {
+		ks = nil
+		for k := 0; k < full; k += 7 {
+			ks = append(ks, k)
+		}
+	}
+	if onlyK >= 0 {
+		ks = []int{onlyK}
+	}
+	res.Bounds[fmt.Sprintf("interrupted.failure_points.lazy%d", lazy)] = fmt.Sprintf("%d failure points in a dump of %d bytes (140 entries, 2 blocks)", len(ks), full)
+	for _, k := range ks {
+		d, snap, _, x := run(k)
+		name := fmt.Sprintf("dump after a dump that failed after %d bytes, a flush and 3 new entries", k)
+		if x.Panic != "" {
+			viol("interrupted/panic", name+": "+x.Panic, nil)
+			continue
+		}
+		if !x.Quiescent || x.Livelock {
+			return fmt.Sprintf("interrupted: did not end cleanly: blocked=%v", x.Blocked)
+		}
+		if d == nil {
+			continue
+		}
+		res.Evaluations++
+		ld := c19LoadAt(c19DumpAt, lazy, d)
+		in := c19FileIn{Scenario: "interrupted", Name: name, Conf: cf, AtNs: int64(c19DumpAt), K: k}
+		switch {
+		case ld.Infra != "":
+			return ld.Infra
+		case ld.Panic != "":
+			viol("interrupted/panic", name+": loading it panicked: "+ld.Panic, in)
+		case ld.Status != 200:
+			viol("interrupted/dump-unreadable", fmt.Sprintf("%s cannot be loaded: %d %s", name, ld.Status, ld.Body), in)
+		case len(ld.Entries) < c19Live(snap):
+			viol("interrupted/entries-lost", fmt.Sprintf("%s: the dumped cache held %d live entries, %d were loaded", name, c19Live(snap), len(ld.Entries)), in)
+		default:
+			if diff, _ := c19Subset(ld.Entries, snap); diff != "" {
+				res.Outcome("interrupted/RESURRECTED")
+				viol("interrupted/entries-differ", name+": "+diff+" (the cache held "+fmt.Sprint(len(snap))+" entries when it was dumped)", in)
+			} else {
+				res.Outcome("interrupted/ok")
+			}
+		}
+	}
+	return ""
+}
+
 // ---------------------------------------------------------------------------
 // scenario dumpfile: periodic dump to Args.DumpFile, crash points of that file
 
@@ -1334,6 +1454,16 @@ func c19Replay(t *testing.T, raw json.RawMessage) {
 		v := c19RunRoundtrip(in, true)
 		fmt.Println("outcomes:", v.Outcomes)
 		report(v.Sig, v.Desc, v.Infra)
+	case "interrupted":
+		var in c19FileIn
+		if err := json.Unmarshal(raw, &in); err != nil {
+			t.Fatal(err)
+		}
+		r2 := vr.New("C19", vr.GetEnv())
+		var sig, desc string
+		infra := c19RunInterrupted(in.Conf.Lazy, false, in.K, r2, func(s, d string, _ any) { sig, desc = s, d })
+		fmt.Println("outcomes:", r2.Outcomes)
+		report(sig, desc, infra)
 	default:
 		var in c19FileIn
 		if err := json.Unmarshal(raw, &in); err != nil {
@@ -1869,6 +1999,14 @@ func TestVerifC19(t *testing.T) {
 			continue
 		}
 		if infra := c19RunRepeated(t.TempDir(), lazy, res, viol); infra != "" && res.Infra == "" {
+			res.Infra = infra
+		}
+	}
+	for i, lazy := range lazies {
+		if !e.Mine(int64(i+13)) || expired() {
+			continue
+		}
+		if infra := c19RunInterrupted(lazy, e.Tier == "thorough", -1, res, viol); infra != "" && res.Infra == "" {
 			res.Infra = infra
 		}
 	}
